@@ -275,12 +275,12 @@ func Run(rep *hx.Report, props Props, tier string, sh hx.Shard, deadline time.Ti
 			r.triples(M, alpha, 16, []uint64{1, 2}, 16, full)
 			r.quads(M, alpha, 8, 12)
 		} else {
-			rep.Bound = "M=8: all programs of length 1..2 over 12 letters alone; all ordered pairs of them x offsets 1..7 x P 1..3 x cycle limit 16, and x cycle limits 1..4 at P=2; all triples over 8 letters x all offset pairs at P=2; all quadruples over 6 letters"
-			p2 := Programs(alpha, 12, 2)
+			rep.Bound = "M=8: all programs of length 1..2 over 16 letters alone; all ordered pairs of them x offsets 1..7 x P 1..3 x cycle limit 16; all ordered pairs over 8 letters x every entry point x cycle limits 1..4 at P=2; all triples over 10 letters x all offset pairs at P in {1,2}; all quadruples over 6 letters"
+			p2 := Programs(alpha, 16, 2)
 			r.singles(M, p2, full, 16)
 			r.pairs(M, p2, []uint64{1, 2, 3}, []uint64{16}, full, false)
 			r.pairs(M, Programs(alpha, 8, 2), []uint64{2}, []uint64{1, 2, 3, 4}, full, true)
-			r.triples(M, alpha, 8, []uint64{2}, 12, full)
+			r.triples(M, alpha, 10, []uint64{1, 2}, 12, full)
 			r.quads(M, alpha, 6, 10)
 		}
 	case props.C12:
